@@ -88,3 +88,6 @@ Definition curupdate_tree (c : curupdate) : tree :=
 Definition curupdate_of_tree (t : tree) : curupdate :=
   {| cu_id := t_int (t_nth 0 t); cu_name := t_bytes (t_nth 1 t); cu_status := t_int (t_nth 2 t);
      cu_table := t_bytes (t_nth 3 t); cu_stmt := t_bytes (t_nth 4 t) |}.
+
+Lemma curupdate_of_tree_tree c : curupdate_of_tree (curupdate_tree c) = c.
+Proof. destruct c; reflexivity. Qed.
